@@ -48,7 +48,8 @@ pub enum AlphaSize {
 
 /// groups of filters that differ in meaning but are easily confused by a lossy rendering or a structural shortcut
 /// (name chains vs joined names, grouping, omitted vs zero slice bounds, index chains vs unions vs longer indices)
-pub const CONFUSABLE: [&[&str]; 6] = [
+pub const CONFUSABLE: [&[&str]; 7] = [
+    &["@==1e19", "@>1e19", "@<2e19", "@>=9223372036854775808.0"],
     &["@.a.b", "@.ab"],
     &["@.a.b==1", "@.ab==1"],
     &["(@.x||@.y)&&@.z", "@.x||@.y&&@.z"],
